@@ -17,6 +17,7 @@ THEOREMS = [
     "AcqVerif.C15.C15_roundtrip",
     "AcqVerif.C15.C15_pages",
     "AcqVerif.C15.C15_description",
+    "AcqVerif.C15.C15_description_parses",
     "AcqVerif.C15.C15_chain",
     "AcqVerif.C15.C15_layout_disjoint_in_file",
     "AcqVerif.C15.C15_packet_grouping",
@@ -448,13 +449,17 @@ def read_back(drv, files):
         if not m or int(m.group(2)) != len(frs):
             bad.append({"what": "readTiff on the real file", "got": line[:200], "frames": len(frs)})
             continue
-        pages = re.findall(r"\[ifd=(\d+) ntags=(\d+) w=(\d+) h=(\d+) bits=(\d+) fmt=(\d+) strip=(\d+)\+(\d+) desc=(\d+)\+(\d+) next=(\d+) pix=(\S+) text=(\S+)\]", line)
+        pages = re.findall(r"\[ifd=(\d+) ntags=(\d+) w=(\d+) h=(\d+) bits=(\d+) fmt=(\d+) strip=(\d+)\+(\d+) desc=(\d+)\+(\d+) next=(\d+) pix=(\S+) text=(\S+) ids=(\S+) meta=(\S+)\]", line)
+        if len(pages) != len(frs):
+            bad.append({"what": "readTiff/parseDescription on the real file: a description did not parse", "got": line[:300]})
+            continue
         for i, (pg, fr) in enumerate(zip(pages, frs)):
             pix = frame_data(fr)
             want = (fr[0], fr[1], 8 * BPP[fr[2]], FMT[fr[2]], pix.hex() or "-")
             got = (int(pg[2]), int(pg[3]), int(pg[4]), int(pg[5]), pg[11])
             text = bytes.fromhex(pg[12])
-            ok = got == want and text.endswith(b"\0")
+            want_meta = (meta.hex() if (i == 0 and meta) else "none")
+            ok = got == want and text.endswith(b"\0") and pg[13] == "%d/%d/%d/%d" % (fr[3], fr[4], fr[6], fr[5]) and pg[14] == want_meta
             if ok:
                 try:
                     o = json.loads(text[:-1])
